@@ -57,7 +57,8 @@ def obs_subject(case):
     r, val, sc = parse(text)
     r2, val2, _ = parse(nohash)
     r3, val3, _ = parse(notime)
-    return {"items": [{"k": k, "w": w} for k, w in items], "labels": list(r.labels), "subj": words(r.subject),
+    strnorm = [1 if x.subject == " ".join(words(x.subject)) else 0 for x in (r, r2, r3)]
+    return {"items": [{"k": k, "w": w} for k, w in items], "strnorm": strnorm, "labels": list(r.labels), "subj": words(r.subject),
             "used": used_words(r, sc, text), "val": val, "val_nohash": val2, "subj_nohash": words(r2.subject), "labels_nohash": list(r2.labels),
             "labels_notime": list(r3.labels), "subj_notime": words(r3.subject), "val_notime": val3,
             "notime_is_nomatch": 1 if all(k in ("I", "H") for k, w in items if k != "T") else 0, "_text": text}
@@ -68,7 +69,7 @@ EXPRS = ["tomorrow 8pm", "friday 8pm-9pm", "5.3.2021", "monday 9:00 - 10:30", "n
          "10-12-2021", "in 3 days"[3:], "tomorrow morning", "8:30", "monday", "5 march 2021 17:00", "heute 15 uhr", "12.5."]
 # ordinary words incl. words that contain a '#' without being a hashtag (C#, F#, a lone #): they are words of the subject, and no
 # label may be made out of the blank and the word that follow them
-ORD = ["the", "and", "mom", "meeting", "dinner", "team", "report", "with", "about", "C#", "F#", "#"]
+ORD = ["the", "and", "mom", "meeting", "dinner", "team", "report", "with", "about", "C#", "F#", "#", "#?", "#!"]
 TAGS = ["work", "Family", "a_b", "x-y", "_todo", "Q3", "food", "a", "x", "x1", "team", "team-b", "work2", "Q", "_", "food_"]
 # pairs in which one hashtag is a proper prefix of the other (both orders are generated)
 PREFIX_PAIRS = [("team", "team-b"), ("x", "x1"), ("a", "a_b"), ("work", "work2"), ("Q", "Q3"), ("food", "food_"), ("_", "_todo")]
